@@ -229,13 +229,15 @@ pub fn check_rigid(c: &RigidCase) -> CaseResult {
     let amin = ra.area().min(rb.area());
     let ref_iou = ref_i / (ra.area() + rb.area() - ref_i);
     // rounding of the moved inputs: translation is exact by construction; a rotation rounds the
-    // centres (<= 1 ulp of ~4e3) and the angle (1 ulp of <= 14 rad, lever arm = box radius)
+    // centres (<= 1 ulp of ~4e3) and the angle (1 ulp at its magnitude, lever arm = box radius)
     let minside = (c.a.width().min(c.a.height).min(c.b.width()).min(c.b.height)) as f64;
     let tol = if c.theta == 0.0 {
         1e-5
     } else {
         let cm = a2.xc.abs().max(a2.yc.abs()).max(b2.xc.abs()).max(b2.yc.abs());
-        let shift = 2.0 * ulp32(cm) as f64 + ulp32(16.0) as f64 * (ra.radius() + rb.radius());
+        // (the rotated angle is rounded to f32 at its own magnitude: many-turn angles are coarse)
+        let am = [c.a.angle, c.b.angle, a2.angle, b2.angle].iter().map(|x| x.unwrap_or(0.0).abs()).fold(16.0f32, f32::max);
+        let shift = 2.0 * ulp32(cm) as f64 + ulp32(am) as f64 * (ra.radius() + rb.radius());
         IOU_TOL + 8.0 * shift / minside
     };
     let clearly = ref_i > 1e-3 * amin;
